@@ -1136,9 +1136,12 @@ fn pump(st: &mut SeqStats, fl: Flavour, fut: bool, cap: u64, label: &str) {
     // deviations: at every position insert one structural op (or none)
     let mut variants: Vec<Vec<Op>> = vec![base.clone()];
     for pos in 0..=base.len() {
-        for dev in 0..4 {
+        for dev in 0..5 {
             let mut v = base.clone();
             let ins: Vec<Op> = match dev {
+                // a second sender appears, sends one value itself and leaves (the
+                // first sender falls back to the single-writer path afterwards)
+                4 => vec![opd(CloneH, 0, 2), opv(TrySend, 2, 900 + pos as u32), op(DropH, 2)],
                 0 => vec![opd(CloneH, 0, 2), op(DropH, 2)],
                 1 => vec![opd(CloneH, 1, 4), op(DropH, 4)],
                 2 => {
